@@ -24,7 +24,8 @@ func run(c *hl.Ctx) error {
 		switch cs["k"] {
 		case "diff":
 			// re-observe with the same key
-			c.Emit(semlib.C10DiffKey(src, in["key"].(string)))
+			eref, _ := in["eref"].(string)
+			c.Emit(semlib.C10DiffKey(src, in["key"].(string), eref))
 		default:
 			if cc, _ := semlib.CoreCase(src); cc != nil {
 				c.Emit(cc)
@@ -52,7 +53,7 @@ func run(c *hl.Ctx) error {
 	}
 	m := c.Pick(1500, 60000)
 	for i := 0; i < m; i++ {
-		g := semlib.New(r, semlib.Opts{MaxDecls: 25, MaxDepth: 4, Underscore: true, QuotedKw: i%2 == 0, ErrSeeds: false, Nulls: i%3 != 0, EdgeMapUnderscore: i%5 == 0})
+		g := semlib.New(r, semlib.Opts{MaxDecls: 25, MaxDepth: 4, Underscore: true, QuotedKw: i%2 == 0, ErrSeeds: false, Nulls: i%3 != 0})
 		src := g.Program()
 		dc := semlib.C10Diff(r, src)
 		if dc == nil {
